@@ -288,6 +288,8 @@ def config_part(res):
 # ------------------------------------------------------------------ confinement
 def gen_confine(rnd):
     kids = [{'beh': {'*': ['ignore']}, 'kids': [{'beh': {'*': ['ignore']}}]}]
+    if rnd.random() < .4:
+        kids = kids + [{'beh': {'*': ['ignore']}}, {'beh': {'*': ['ignore']}}]
     state = rnd.choice(['active', 'active', 'stopped', 'stopping'])
     reqs = []
     for _ in range(6):
@@ -306,6 +308,9 @@ def gen_confine(rnd):
             r.pop('children', None)
             r.pop('recursive', None)
             r['graceful_timeout'] = 0.2
+            if rnd.random() < .4:
+                # one child of the addressed workers vanishes at a kernel-call boundary of the request
+                r['vanish'] = [rnd.choice([1, 2, 2, 3, 3, 4, 5, 6, 8]), rnd.randint(0, 5)]
         reqs.append(r)
     sc = rnd.random() < .5
     return {'watchers': [{'name': 'a', 'numprocesses': 2, 'graceful_timeout': 0.3, 'beh': [{'*': ['ignore']}],
@@ -383,7 +388,23 @@ def _confine(w, h, res):
         alldesc = set().union(*desc.values()) if desc else set()
         allowed = set(workers) | alldesc
         l0 = len(k.log)
+        kids0 = {p: [c.pid for c in k.procs.values() if c.orig_ppid == p and c.ppid == p and c.state == 'running']
+                 for p in workers}
+        stopping0 = {p: bool(getattr(w.arb.get_watcher(name).processes.get(p), 'stopping', False)) for p in workers}
+        vanished = []
+        if r.get('vanish') and workers:
+            off, idx = r['vanish']
+
+            def vanish(kern, idx=idx, cands=sorted(c for v in kids0.values() for c in v)):
+                cands = [c for c in cands if kern.procs[c].state == 'running']
+                if cands:
+                    kern.schedule_death(kern.procs[cands[idx % len(cands)]], 0.0, 9, 'ext')
+                    vanished.append(cands[idx % len(cands)])
+                    res.obs['children_vanished_during_kill'] += 1
+            k.inject[k.calls + off] = vanish
+        t_req = w.clock.now
         mid = w.req(r['cmd'], **props)
+        k.inject.clear()
         if r['cmd'] == 'signal':
             got = circus_signals(k, l0)       # the signal command is synchronous
             yield w.settle(30)
@@ -410,7 +431,7 @@ def _confine(w, h, res):
                     exp = set().union(*[set(c.pid for c in k.procs.values() if c.orig_ppid == p and c.state == 'running')
                                         for p in workers]) if workers else set()
                 elif r.get('recursive'):
-                    exp = set(allowed)
+                    exp = set(x for x in allowed if k.procs[x].state == 'running')
                 else:
                     exp = set(workers)
             elif 'pid' in r and 'childpid' not in r:
@@ -419,7 +440,7 @@ def _confine(w, h, res):
                     if r.get('children'):
                         exp = set(c.pid for c in k.procs.values() if c.orig_ppid == pid and c.state == 'running')
                     elif r.get('recursive'):
-                        exp = {pid} | k.descendants(pid)
+                        exp = {pid} | set(x for x in k.descendants(pid) if k.procs[x].state == 'running')
                     else:
                         exp = {pid}
                 else:
@@ -440,6 +461,33 @@ def _confine(w, h, res):
                 else:
                     res.nontrivial(repr(('confine', r['cmd'], form, h['state'], bool(got))))
         else:
+            wobj = w.arb.get_watcher(name) if name in [x.name for x in w.arb.watchers] else None
+            if (isinstance(rep, dict) and rep.get('status') == 'ok' and wobj is not None
+                    and ('pid' not in r or props['pid'] in workers)):
+                # the designated signal reaches every addressed worker and, with stop_children, its children
+                # (the synchronous part of the request; a worker another termination is already busy with is
+                # left to that one)
+                addressed = [props['pid']] if 'pid' in r else list(workers)
+                first = {}
+                for e in k.log[l0:]:
+                    if e[1] == 'signal' and e[4] == 'circus' and e[0] - t_req < 0.001:
+                        first.setdefault(e[2], e[3])
+                want = set()
+                for p in addressed:
+                    if stopping0.get(p) or k.procs[p].state != 'running':
+                        continue
+                    want.add(p)
+                    if wobj.stop_children:
+                        want |= set(kids0.get(p, []))
+                want -= set(vanished)
+                missing = sorted(p for p in want if first.get(p) != n)
+                res.obs['kill_requests_judged'] += 1
+                if missing:
+                    res.violation('C18/kill-missed-addressed-process' + ('[a-child-vanished]' if vanished else ''),
+                                  'kill %s: processes %s (%s) were addressed and did not get signal %d with the '
+                                  'request (got %s; vanished child %s)'
+                                  % (props, missing, [k.procs[p].tag for p in missing], n,
+                                     {p: first.get(p) for p in missing}, vanished))
             if 'pid' in r and props['pid'] not in workers and got:
                 res.violation('C18/kill-of-foreign-pid', 'kill %s signalled %s' % (props, got))
             else:
